@@ -169,17 +169,18 @@ theorem tian_sound_ctftr_caller (M : Scm) (d : CtfTr.Domain) (hM : M.Compatible 
 --       (e : Expr) (h : identify G C T q topo = .ok (some e)) :
 --       ∀ M : Scm, M.Compatible G → ∀ σ, den (M.env G) σ' e σ = M.Q C σ
 -- Status.  (1) `ProbShape` was weakened to what the proofs use: redundant children `P(T, W | Z)`, `W ⊆ Z ∪ w`, are
--- allowed, parents and intervened variables need not be nodes of the graph.  (2) Every Q[T] that y0 itself produces
+-- allowed, parents and intervened variables need not be nodes of the graph, the spelling `-X` of a variable in event
+-- position is allowed (only `+X`, which reads the other assignment σ', is excluded).  (2) Every Q[T] that y0 itself produces
 -- satisfies it (section 1b), and IDENTIFY re-establishes it at every level of its recursion.  (3) No counterexample to
 -- the semantic statement is known, and the harness searches for one on every run: generator `semP` (harness/props/c17.py)
 -- enumerates EVERY single-world probability `P_w(T ∪ E | Z)` over small graphs, keeps those that denote Q[T] on the
 -- random models and checks the result of IDENTIFY by exact evaluation (none failed).  We believe the statement is true
 -- for `M.env G`: a conjunction across worlds has value 0 there (Y0/Spec/Scm.lean `prAtoms`) and Q[T] > 0, so q lives
 -- in one world w; comparing with the fair-coin model and with a model biased at one t ∈ T forces
--- "child names ∖ (parent names ∪ w) = T" and no `+t` child, which is `ProbShape` up to the spelling `-x` for `x` and
--- up to starred parents (`P(T | +z)`, harmless when it denotes Q[T] at all).  Mechanising those separating models
--- (a compatible `Scm` for an arbitrary `G` with prescribed kernels, its `prDo` in closed form) and allowing `-x`/`+z`
--- spellings in `TianLemma1` is the remaining work.  A single-model hypothesis can never suffice: in a uniform model
+-- "child names ∖ (parent names ∪ w) = T" and no `+t` child, which is `ProbShape` up to starred parents / redundant
+-- starred children (`P(T | +z)`, harmless when it denotes Q[T] at all).  Mechanising those separating models
+-- (a compatible `Scm` for an arbitrary `G` with prescribed kernels, its `prDo` in closed form) and allowing `+z`
+-- outside `T` in `TianLemma1` is the remaining work.  A single-model hypothesis can never suffice: in a uniform model
 -- unrelated probabilities coincide with Q[T], and the Lemma-1 branch does not read the children outside `T`.
 -- `Sum` / `Product` / `Fraction` inputs are covered by `tian_sound` without any shape hypothesis.
 
